@@ -357,6 +357,8 @@ def dump_tie(ck, label, d, bindings, tp, header):
                 if ak is not None and ak.get("tkind") == "Array":
                     el = d.items.get(int(ak["inner"]))
                     params.append("PArray %s %s %s" % ("true" if el and el.get("const") == "1" else "false", "true" if top.get("const") == "1" else "false", ak["inner"]))
+                elif ak is not None and ak.get("tkind") == "Pointer" and (canonical_kind(d, int(ak["inner"])) or {}).get("tkind") == "Function":
+                    params.append("PFnPtr %d" % a)
                 else:
                     params.append("POther %d" % a)
             rk = canonical_kind(d, int(sig["ret"]))
@@ -391,6 +393,7 @@ Definition sig_ok (s : csig) (codes : list N) (dots : bool) (rc : N) : bool :=
   let l := lower_sig s in
   Nat.eqb (length (r_args l)) (length codes)
   && forallb (fun p => match fst p with RPtr _ _ => N.eqb (code (fst p)) (snd p) | RTy _ => true end) (combine (r_args l) codes)
+  && forallb (fun p => match fst p with PFnPtr _ => N.eqb (snd p) 0 | _ => true end) (combine (s_args s) codes)
   && Bool.eqb (r_dots l) dots && N.eqb (rcode (r_ret l)) rc.
 Fixpoint sidx (i : N) (l : list (csig * list N * bool * N)) : list N :=
   match l with [] => [] | (s, codes, dots, rc) :: l' => (if sig_ok s codes dots rc then [] else [i]) ++ sidx (i + 1) l' end.
@@ -463,6 +466,12 @@ def features_of(f):
     if c04gen.rust_name(f["name"]) != f["name"]:
         fs.add("renamed")
     r = f["ret"]
+    if isinstance(r, tuple):
+        fs.add("returns-fnptr:" + r[2])
+        r = None
+    for p in f["params"]:
+        if p["k"] == "fnptr" and p.get("form", "inline") != "inline":
+            fs.add("fnptr:" + p["form"])
     while isinstance(r, c04gen.Td):
         r = r.target
     if isinstance(r, c04gen.Rec):
